@@ -156,11 +156,14 @@ pub fn run(env: &mut Env) -> Outcome {
     let wire = world.wire.borrow();
     // what the client really put into its request (it must equal what the configuration implies)
     let offered_on_wire = srv.client_requested;
-    if !srv.history.is_empty() && offered_on_wire != mask {
+    let offered_less = if direct { false } else { offered_on_wire & mask != mask };
+    if !srv.history.is_empty() && offered_less {
         return viol("c02/offered-mask", &format!("configured={} sent={}", mask_class(mask), mask_class(offered_on_wire)), format!("the configuration implies requested protocols {:#x} but the connection request carries {:#x}", mask, offered_on_wire));
     }
     // a confirm without negotiation data is a server that only knows standard RDP security: what a client that offered
     // nothing else (mask 0) asked for; for any other offer it is a selection that was not offered
+    // "offered" is what the connection request carried (the argument of a direct call when nothing was sent at all)
+    let mask = if srv.history.is_empty() { mask } else { offered_on_wire };
     let legit = (kind == CcKind::Response && ((sel == 1 && mask & 1 != 0) || (sel == 2 && mask & 2 != 0) || (sel == 8 && mask & 8 != 0) || (sel == 0 && mask == 0)))
         || (kind == CcKind::Absent && mask == 0);
     let legit_is_tls = legit && kind == CcKind::Response && sel != 0;
